@@ -1,6 +1,7 @@
 package props
 
 import (
+	"math"
 	"context"
 	"database/sql"
 	"encoding/json"
@@ -69,7 +70,7 @@ func (s *sqlSpec) checkStored(R []*mocrelay.Event) []cacheFinding {
 		}
 	}
 	newest := func(g []*mocrelay.Event) (tie []*mocrelay.Event) {
-		var mx int64 = -1 << 62
+		mx := int64(math.MinInt64)
 		for _, e := range g {
 			if e.CreatedAt > mx {
 				mx = e.CreatedAt
